@@ -30,6 +30,8 @@ import (
 	"net/http"
 	"net/http/httptest"
 	"net/url"
+	"os"
+	"os/exec"
 	"sort"
 	"strings"
 	"sync"
@@ -1291,6 +1293,97 @@ func c16PionSelfTest(e *c16Env) bool {
 	}
 }
 
+// TestC16ChildStart: the real Start() loop in a process of its own (it owns the package-level tokens, broker and
+// config).  Capacity 7, a broker that always answers "no match": the proxy must hold one slot and report load 0 for
+// as long as it runs; polls that report more than the slots it can have in use are printed.
+func TestC16ChildStart(t *testing.T) {
+	if os.Getenv("VERIF_C16_CHILD") == "" {
+		t.Skip("child of TestVerifC16 only")
+	}
+	log.SetOutput(io.Discard)
+	var mu sync.Mutex
+	var loads []int
+	concurrent, maxConcurrent := 0, 0
+	srv := httptest.NewServer(http.HandlerFunc(func(w http.ResponseWriter, req *http.Request) {
+		body, _ := io.ReadAll(req.Body)
+		if _, _, _, clients, _, _, err := messages.DecodeProxyPollRequestWithRelayPrefix(body); err == nil {
+			mu.Lock()
+			loads = append(loads, clients)
+			concurrent++
+			if concurrent > maxConcurrent {
+				maxConcurrent = concurrent
+			}
+			mu.Unlock()
+			time.Sleep(300 * time.Millisecond)
+			mu.Lock()
+			concurrent--
+			mu.Unlock()
+		}
+		out, _ := messages.EncodePollResponse("", false, "")
+		w.Write(out)
+	}))
+	defer srv.Close()
+	sf := &SnowflakeProxy{Capacity: 7, BrokerURL: srv.URL + "/", RelayURL: "wss://127.0.0.1:1/", STUNURL: "stun:127.0.0.1:1",
+		NATProbeURL: "http://127.0.0.1:1/probe", RelayDomainNamePattern: "$", KeepLocalAddresses: true}
+	done := make(chan error, 1)
+	go func() { done <- sf.Start() }()
+	var d time.Duration
+	fmt.Sscanf(os.Getenv("VERIF_C16_CHILD"), "%d", &d)
+	select {
+	case err := <-done:
+		fmt.Printf("C16CHILD start-returned %v\n", err)
+	case <-time.After(d * time.Second):
+	}
+	sf.Stop()
+	mu.Lock()
+	defer mu.Unlock()
+	fmt.Printf("C16CHILD result polls=%d loads=%v maxConcurrentPolls=%d\n", len(loads), loads, maxConcurrent)
+}
+
+// c16RealStart (thorough tier and widened searches only: it needs seven 5 s poll intervals)
+func (e *c16Env) realStart(seconds int) {
+	r := e.r
+	cmd := exec.Command(os.Args[0], "-test.run", "^TestC16ChildStart$", "-test.count=1", "-test.timeout=300s")
+	cmd.Env = append(os.Environ(), fmt.Sprintf("VERIF_C16_CHILD=%d", seconds), "VERIF_OUT=")
+	outb, _ := cmd.CombinedOutput()
+	res := "process-died"
+	for _, l := range strings.Split(string(outb), "\n") {
+		if strings.HasPrefix(l, "C16CHILD result ") {
+			res = strings.TrimPrefix(l, "C16CHILD result ")
+		}
+	}
+	line := fmt.Sprintf("real Start() loop, capacity 7, broker always answers no match, %d s: %s", seconds, res)
+	r.Case("start-loop/capacity-7-no-match", line, true)
+	var polls int
+	var loads string
+	fmt.Sscanf(res, "polls=%d", &polls)
+	if i := strings.Index(res, "loads=["); i >= 0 {
+		loads = res[i+7 : strings.Index(res, "]")]
+	}
+	switch {
+	case res == "process-died":
+		r.OracleFail("proxy-process-dies", line, string(outb[len(outb)-imin16(len(outb), 1500):]), "the proxy must keep polling")
+	case polls == 0:
+		r.Note("real Start(): no poll reached the broker in %d s (NAT probe slow?)", seconds)
+	default:
+		for _, f := range strings.Fields(loads) {
+			var v int
+			fmt.Sscanf(f, "%d", &v)
+			if v%8 != 0 || v > 7 {
+				r.OracleFail("load-not-multiple-of-8-or-above-in-use", line, res, "a capacity-7 proxy cannot have more than 7 slots in use: a reported load of 8 or more exceeds the slots in use")
+				break
+			}
+		}
+	}
+}
+
+func imin16(a, b int) int {
+	if a < b {
+		return a
+	}
+	return b
+}
+
 // TestVerifC06Proxy: the proxy-side clause of C06 alone (relay URLs through the real runSession on long-lived
 // proxies), registered under C06.
 func TestVerifC06Proxy(t *testing.T) {
@@ -1358,6 +1451,10 @@ func TestVerifC16(t *testing.T) {
 	}
 	if e.pionOK && !broken() {
 		e.stalledDownloader()
+	}
+	if r.Thorough() {
+		wg.Add(1)
+		go func() { defer wg.Done(); e.realStart(50) }()
 	}
 
 	// D
